@@ -6,6 +6,7 @@ for d in seeded/${1:-C*}; do
   n=$(basename $d)
   out=$(SEED_LINES=2 tools/seedtest.sh $n 2>&1)
   rc=$(echo "$out" | sed -n 's/^seed=.* exit=\([0-9]*\)$/\1/p')
+  if echo "$out" | grep -q "patch does not apply"; then rc=9; fi
   first=$(grep -m1 -E "violated:" /tmp/seedtest_$n.log | sed 's/ lhs=.*//; s/ env=.*//' | cut -c1-300)
   python3 - "$d/meta.json" "$rc" "$first" <<'PY'
 import json,sys
@@ -14,7 +15,9 @@ m=json.load(open(p))
 if rc=='1':
     m['detected_by']=dict(check='quick', exit=1, first_violation=first.strip())
 elif rc=='9':
-    m['detected_by']=dict(check='quick', exit=None, note='patch no longer applies to the repaired tree')
+    m['detected_by']=dict(check='quick', exit=None, note=m.get('miss_note') or 'patch no longer applies to the repaired tree')
+elif rc=='2':
+    m['detected_by']=dict(check='quick', exit=2, note=m.get('miss_note') or 'alarm without verdict: the engine refuses a construct of the changed code (harness error / inconclusive, exit 2)')
 else:
     m['detected_by']=dict(check='quick', exit=int(rc) if rc else None, note=m.get('miss_note','not detected'))
 json.dump(m,open(p,'w'),indent=1)
